@@ -77,6 +77,20 @@ namespace hv
         }
     };
 
+    // Two TS<Int> arguments packed into ONE structured parameter (fixed list): the body reads its projections xs[0] / xs[1]
+    // (boundary sources that differ only in the path below one argument).
+    struct SubL2
+    {
+        static constexpr auto name = "subl2";
+        static Port<TS<Int>> compose(Wiring &w, Port<TSL<TS<Int>, 2>> xs, Scalar<"sid", Int> sid)
+        {
+            PortVal r;
+            interpret(w, ctx().graphs.at("sub" + std::to_string(sid.value())),
+                      {PortVal{tsl_element(xs, 0).erased(), PT::Int}, PortVal{tsl_element(xs, 1).erased(), PT::Int}}, &r);
+            return Port<TS<Int>>{w, r.ref};
+        }
+    };
+
     // WiredFn-able sub-graphs (no scalars): template index selects the program "fn<K>".
     template <int K>
     struct Fn1
@@ -301,6 +315,12 @@ namespace hv
                 }
                 if (a.empty()) put(s.dst, nest ? nested_<Sub0>(w, sid) : wire<Sub0>(w, sid));
                 else if (a.size() == 1) put(s.dst, nest ? nested_<Sub1>(w, pi(a[0]), sid) : wire<Sub1>(w, pi(a[0]), sid));
+                else if (a.size() == 2 && s.kwi("pack", 0))
+                {
+                    // both arguments travel as one fixed-list parameter built by a structural initializer
+                    std::initializer_list<WiringPortRef> xs{pi(a[0]).erased(), pi(a[1]).erased()};
+                    put(s.dst, (nest ? nested_<SubL2>(w, xs, sid) : wire<SubL2>(w, xs, sid)).template as<TS<Int>>());
+                }
                 else if (a.size() == 2)
                     put(s.dst, nest ? nested_<Sub2>(w, pi(a[0]), pi(a[1]), sid) : wire<Sub2>(w, pi(a[0]), pi(a[1]), sid));
                 else throw std::runtime_error("sub arity");
